@@ -176,6 +176,10 @@ func catalog(p ScenParams) *WSpec {
 		tg2 := ProcSpec{Name: "tg2", Kind: "tagger", TagKey: "k2", Ins: []string{"in"}}
 		w.Procs = []ProcSpec{src, simpleProc("p", kind), tg1, simpleProc("d", kind), tg2, simpleProc("e", kind)}
 		w.Edges = []Edge{fe("src", "out", "p", "in"), fe("p", "out", "tg", "in"), fe("tg", "out", "d", "in"), fe("d", "out", "tg2", "in"), fe("tg2", "out", "e", "in")}
+	case "g14c": // the smallest fan-out with a tagging arm: src -> p -> {tg -> sink, c}
+		tg := ProcSpec{Name: "tg", Kind: "tagger", TagKey: "k", Ins: []string{"in"}}
+		w.Procs = []ProcSpec{src, simpleProc("p", kind), tg, simpleProc("c", kind)}
+		w.Edges = []Edge{fe("src", "out", "p", "in"), fe("p", "out", "tg", "in"), fe("p", "out", "c", "in")}
 	case "g14a": // tagging alone in a chain
 		tg := ProcSpec{Name: "tg", Kind: "tagger", TagKey: "k", Ins: []string{"in"}}
 		w.Procs = []ProcSpec{src, simpleProc("p", kind), tg, simpleProc("d", kind)}
